@@ -44,7 +44,8 @@ CHECKS = {
                       P("manager", "./c17", "^TestC17Manager$", shards={"quick": 6, "thorough": 6}, budget={"quick": 200, "thorough": 1200}, gomaxprocs=1, overlay=SVC_OV),
                       P("idle-timer", "./c17", "^TestC17Timer$", shards={"quick": 2, "thorough": 2}, budget={"quick": 200, "thorough": 900}, gomaxprocs=1, overlay=SVC_OV)]},
     "C11": {"parts": [P("dountilquorum", "./c11", "^TestC11$", shards={"quick": 12, "thorough": 12}, budget={"quick": 200, "thorough": 1200}, gomaxprocs=1, overlay=RS_OV),
-                      P("multi-set", "./c11", "^TestC11Multi$", shards={"quick": 4, "thorough": 4}, budget={"quick": 200, "thorough": 1200}, gomaxprocs=1, overlay=RS_OV_MULTI)]},
+                      P("multi-set", "./c11", "^TestC11Multi$", shards={"quick": 4, "thorough": 4}, budget={"quick": 200, "thorough": 1200}, gomaxprocs=1, overlay=RS_OV_MULTI),
+                      P("legacy-do", "./c11", "^TestC11Legacy$", shards={"quick": 8, "thorough": 12}, budget={"quick": 200, "thorough": 1200}, gomaxprocs=1, overlay=RS_OV)]},
     "C12": {"parts": [P("instance-shards", "./c12", "^TestC12Instances$"), P("instance-lookback", "./c12", "^TestC12Lookback$"), P("partition-shards", "./c12", "^TestC12Partitions$")]},
     "C13": {"parts": [P("ring-client", "./c13", "^TestC13Ring$"), P("partition-watcher", "./c13", "^TestC13Partitions$"),
                       P("concurrent-readers", "./c13", "^TestC13Concurrent$", shards={"quick": 12, "thorough": 16}, budget={"quick": 200, "thorough": 1200}, gomaxprocs=1,
